@@ -38,7 +38,7 @@ ITERATION_WATCHDOG_S = float(os.environ.get('VERIF_ITERATION_WATCHDOG', '10'))
 
 
 def _wedged(signum, frame):
-    raise Wedged('one main_loop iteration ran for more than %.0f s of CPU-unbounded wall time' % ITERATION_WATCHDOG_S)
+    raise Wedged('one main_loop iteration used more than %.0f s of CPU time (or %.0f s of wall-clock time)' % (ITERATION_WATCHDOG_S, ITERATION_WATCHDOG_S * 30))
 
 
 class _LogCapture(logging.Handler):
@@ -214,9 +214,13 @@ class World:
         CTX.dh_calls = 0
         # a main_loop iteration normally takes about a millisecond; one that does not return within the watchdog time is
         # a hang of the daemon (reported like an escaping exception), and must not hang the check
+        # The bound is on CPU time of this process (a busy machine must not turn a slow iteration into an alarm); a much
+        # longer wall-clock bound catches an iteration that sleeps instead of spinning.
         try:
             old = signal.signal(signal.SIGALRM, _wedged)
-            signal.setitimer(signal.ITIMER_REAL, ITERATION_WATCHDOG_S)
+            old_v = signal.signal(signal.SIGVTALRM, _wedged)
+            signal.setitimer(signal.ITIMER_VIRTUAL, ITERATION_WATCHDOG_S)
+            signal.setitimer(signal.ITIMER_REAL, ITERATION_WATCHDOG_S * 30)
             armed = True
         except ValueError:       # not in the main thread
             armed = False
@@ -233,8 +237,10 @@ class World:
             ep.dead_reason = (type(ex).__name__, str(ex)[:300], traceback.format_exc()[-1200:])
         finally:
             if armed:
+                signal.setitimer(signal.ITIMER_VIRTUAL, 0)
                 signal.setitimer(signal.ITIMER_REAL, 0)
                 signal.signal(signal.SIGALRM, old)
+                signal.signal(signal.SIGVTALRM, old_v)
             self.step_dh_calls = CTX.dh_calls
             self._leave()
             if self.all_logs is not None:
